@@ -12,6 +12,23 @@
 
 static unsigned long c14_f, c14_base;
 
+#if defined(VP_NATIVE) && defined(C14_PRINT)
+/* development aid (sweep.py): force the failing position from the environment */
+#  include <stdlib.h>
+static unsigned long c14_native_pick(unsigned long v)
+{
+  const char *e = getenv("C14_F");
+  return e ? strtoul(e, NULL, 10) : v;
+}
+#  define C14_NATIVE_PICK(v) c14_native_pick(v)
+#  define C14_NALLOC_CHECK(n) ((void)0)
+#else
+#  define C14_NATIVE_PICK(v) (v)
+/* the slices in jobs.py are derived from the allocation count of the unfailed call: it must be exact */
+#  define C14_NALLOC_CHECK(n) \
+    VP_BOUND(c14_f != 0 || vp_alloc_calls - c14_base == (n), "NALLOC must equal the number of allocations of the unfailed call")
+#endif
+
 /* Choose the failing position as a solver variable and CASE-SPLIT on it: `call` is symbolically executed once per
  * position with c14_f a constant (so pointer NULL-ness, lengths and counters stay constants inside each case - with a
  * symbolic vp_alloc_fail_at every allocation result is an ite(NULL, object) and nothing closes: measured), every case
@@ -20,7 +37,7 @@ static unsigned long c14_f, c14_base;
 /* a job may cover only the slice LO..HI of the positions (jobs.py enumerates the slices) */
 #define C14_SPLIT_RANGE(LO, K, call)                        \
   do {                                                      \
-    unsigned long c14_i, c14_pick = (unsigned long)vp_range((LO), (K)); \
+    unsigned long c14_i, c14_pick = C14_NATIVE_PICK((unsigned long)vp_range((LO), (K))); \
     for (c14_i = (LO); c14_i <= (unsigned long)(K); c14_i++) \
       if (c14_pick == c14_i) {                              \
         c14_f = c14_i;                                      \
